@@ -223,8 +223,10 @@ pub fn domain(f: Family, k: Kind, refs: &Refs, level: u8) -> Vec<Vec<u8>> {
 	if matches!(k, Kind::Segment | Kind::UserInfo | Kind::Host | Kind::Query | Kind::Fragment) {
 		// equal prefixes of 7 / 8 / 15 / 16 bytes, then a difference in spelling only, a real difference,
 		// and (IRI) a multi-byte character straddling the block boundary
-		for n in [7usize, 8, 15, 16] {
-			let pre = "abcdefghijklmnopqrstuvwxyz"[..n].to_string();
+		for n in [7usize, 8, 15, 16, 31, 32, 63, 64, 127, 128, 129, 255, 256] {
+			let pre: String = "abcdefghijklmnopqrstuvwxyz".chars().cycle().take(n).collect();
+			// the prefix itself: exactly n bytes, against longer values that start with it
+			out.push(pre.clone().into_bytes());
 			out.push(format!("{pre}x").into_bytes());
 			out.push(format!("{pre}%78").into_bytes());
 			out.push(format!("{pre}y").into_bytes());
